@@ -21,6 +21,7 @@ type edge struct {
 	Ok     bool      `json:"ok"`
 	Post   tracked   `json:"post"`
 	Powers [][]int64 `json:"powers"`
+	Flav   string    `json:"flavour"`
 	Idx    *int      `json:"idx,omitempty"`
 }
 
@@ -69,10 +70,11 @@ func cosmosEdges() {
 	})
 	distinct := map[string]bool{}
 	for i, o := range obs {
+		o.Panic, o.Diverged, o.Setup, o.Detail = clean(o.Panic), clean(o.Diverged), clean(o.Setup), clean(o.Detail)
 		vio.Emit(o)
 		if o.Diverged == "" && o.Setup == "" {
 			b, _ := json.Marshal(edges[i].Call)
-			distinct[fmt.Sprint(edges[i].Src, string(b), edges[i].Powers[edges[i].Src.Nv-1])] = true
+			distinct[fmt.Sprint(edges[i].Flav, edges[i].Src, string(b), edges[i].Powers[edges[i].Src.Nv-1])] = true
 		}
 	}
 	vio.Emit(map[string]interface{}{"summary": true, "edges": len(edges), "distinct": len(distinct)})
@@ -80,8 +82,8 @@ func cosmosEdges() {
 
 func runEdge(u *universe, i int, e *edge, r *vio.RNG) (o edgeObs) {
 	o.I = i
-	w := newTmWorld(u, r, e.Powers)
-	o.Concr = fmt.Sprintf("version=%d chain=%d", w.version, w.chain)
+	w := newTmWorld(u, e.Flav, r, e.Powers)
+	o.Concr = fmt.Sprintf("%s version=%d chain=%d", w.flav, w.version, w.chain)
 	if err := w.genesis(e.Init.H, e.Init.Nv); err != nil {
 		o.Setup = "genesis: " + err.Error()
 		return
@@ -101,4 +103,19 @@ func runEdge(u *universe, i int, e *edge, r *vio.RNG) (o edgeObs) {
 	o.Ok, o.Panic, o.Detail = w.do(&e.Call)
 	o.Post = w.tracked()
 	return
+}
+
+// clean keeps printable ASCII only (error texts of the code under test may embed raw key bytes; python's splitlines
+// would split an NDJSON line at U+0085 etc.).
+func clean(s string) string {
+	b := []byte(s)
+	for i, c := range b {
+		if c < 0x20 || c > 0x7e {
+			b[i] = '?'
+		}
+	}
+	if len(b) > 600 {
+		b = b[:600]
+	}
+	return string(b)
 }
